@@ -371,20 +371,46 @@ func (fi *funcInfo) glyphOpArity(ins ssa.Instruction) bool {
 	if n, ok := base.Type().Underlying().(*types.Pointer); !ok || !strings.HasSuffix(n.Elem().String(), "type1.GlyphOp") {
 		return false
 	}
-	for _, cd := range domConds(ix.Block()) {
-		m, ok := asCmp(cd)
-		if !ok || m.op != token.EQL {
-			continue
+	enough := func(cds []cond) bool {
+		for _, cd := range cds {
+			m, ok := asCmp(cd)
+			if !ok || m.op != token.EQL {
+				continue
+			}
+			b2, f2, ok := fieldOf(origin(m.x))
+			if !ok || f2.Name() != "Op" || !sameValue(b2, base) {
+				continue
+			}
+			if c, isC := constInt(m.y); isC && k < glyphOpArityTable[c] {
+				return true
+			}
 		}
-		b2, f2, ok := fieldOf(origin(m.x))
-		if !ok || f2.Name() != "Op" || !sameValue(b2, base) {
-			continue
+		return false
+	}
+	if enough(domConds(ix.Block())) {
+		return true
+	}
+	// a clause shared by several commands (`case OpMoveTo, OpLineTo:`): the block, or the
+	// nearest dominating join, is entered by several edges, each of which fixes the command
+	j := ix.Block()
+	for depth := 0; j != nil && len(j.Preds) < 2 && depth < 6; depth++ {
+		j = j.Idom()
+	}
+	if j == nil || len(j.Preds) < 2 {
+		return false
+	}
+	for _, p := range j.Preds {
+		ifi, ok := p.Instrs[len(p.Instrs)-1].(*ssa.If)
+		var cds []cond
+		if ok {
+			cds = append(cds, cond{ifi.Cond, p.Succs[0] == j, p})
 		}
-		if c, isC := constInt(m.y); isC && k < glyphOpArityTable[c] {
-			return true
+		cds = append(cds, domConds(p)...)
+		if !enough(cds) {
+			return false
 		}
 	}
-	return false
+	return true
 }
 
 // findSubmatch: a non-nil result of FindSubmatch of a constant pattern has 1+NumSubexp elements.
